@@ -29,6 +29,10 @@ claim("C04",
       "The dedup decision function is compared with the property's rule for every previous log entry, every firing/resolved set over a 3-alert universe, every "
       "repeat interval and instant; the repeat window is checked on the real DedupStage+SetNotifiesStage+nflog with GC at arbitrary instants and the tick time taken from the context.",
       "Bounds: 3 alert hashes, 1 group/receiver, one repeat window. Timers and dispatcher restart are outside. " + TRUSTED, "4 C04")
+claim("C05",
+      "One flush of a real aggregation group with 2-3 alerts whose ends lie anywhere around the flush instant, a delivery that takes symbolic time, may fail, and during which an alert may fire "
+      "again: what is handed over as resolved/firing, that firing alerts cannot resolve in flight, deletion iff delivered+resolved+unmodified, destruction iff empty, re-fired alert reported firing next time.",
+      "Bounds: <=3 alerts, 2 flushes, one re-fire. send_resolved filtering is covered under C20, the 'nothing to send' decision under C04. Timers are outside. " + TRUSTED, "4 C05")
 claim("C07",
       "Route.Match on trees built by the real NewRoute is compared with a reference restated from the property for every tree shape up to 5 nodes, every assignment "
       "of per-node matcher outcomes (symbolic label values) and continue flags; option inheritance is checked for all presence profiles with symbolic timer values.",
@@ -41,6 +45,14 @@ claim("C10",
       "Bounded symbolic model checking of the real nflog code: the merge step from an arbitrary pre-state (inductive), Log/Query/GC laws and "
       "delivery-order convergence are each decided by SMT for all instants/flags within the stated bounds; an unsat answer covers every input on that path.",
       "Bounds: <=3 entries, 2 keys, <=4 operations, instants 1970..2200. Codec opaque. " + TRUSTED, "4 C10")
+claim("C12",
+      "Lifecycle histories on the real silence store: create (start possibly in the past), then k arbitrary steps (edit comment/end/start/matchers, unknown id, expire twice, GC) at arbitrary "
+      "instants, compared with the lifecycle rules of the property; plus the API handler's rejections (end<=start, end in the past, empty-matching or invalid matchers, unknown id).",
+      "Bounds: k=3 steps (quick) / 4 (thorough), one original silence plus replacements; two API calls never share one clock reading. HTTP decoding is outside. " + TRUSTED, "4 C12")
+claim("C13",
+      "The real POST /alerts handler on batches of 1-3 alerts with/without start/end and valid/invalid labels (defaults, partial acceptance, status code); the real mem provider on two submissions of "
+      "one label set with arbitrary explicit or timed-out ranges at arbitrary instants (earliest start, timeout pushed forward, explicit past end resolves, order of publication); GC removes exactly the resolved alerts.",
+      "Bounds: batch <=3, 2 submissions per label set, 3 alerts for GC. JSON/OpenAPI decoding, receivers and suppression status of GET are outside. " + TRUSTED, "4 C13")
 claim("C14",
       "The dispatcher's real ingestion workers (run) consume 2-3 back-to-back versions of one alert; the engine explores every assignment of updates to workers and every "
       "interleaving at channel/sync.Map/store-lock granularity within a preemption bound and asserts that every group ends with the version submitted last.",
